@@ -20,7 +20,7 @@ import re
 from fractions import Fraction as Fr
 
 from . import nf
-from .nf import Rat, Poly, C
+from .nf import Rat, Poly, C, PyFloat, as_pyfloat
 from .source import Unsupported, AnchorError, Module, ClassInfo, params, body_wo_doc
 from .fold import token_num, fold_num
 from .absstr import SegStr, Seg, Cut, parse_format, spec_width, to_segstr
@@ -1173,8 +1173,9 @@ class Interp:
             if v.is_literal():
                 return v.literal()
             f = v.single_field()
-            if f is not None and isinstance(f.value, str):
-                return f.value
+            if f is not None and isinstance(f.value, str) and f.value in self.sym_strings and \
+                    self.sym_strings[f.value] == (f.width, f.cls):
+                return f.value          # the placeholder stands for exactly this field
         return v
 
     def format(self, fmt, args, kwargs):
@@ -1267,11 +1268,13 @@ class Interp:
                 v = vals[k]
                 k += 1
             if conv == 's':
-                if prec is not None:
-                    raise Unsupported('printf conversion %r (text cut to a precision)' % m_.group(0), n)
                 if isinstance(v, (Obj, ZipV)) or is_iter(v):
                     raise Unsupported('printf %%s of %r' % (v,), n)
                 piece = self.seg(v)         # str() of the value (seg refuses what it cannot spell)
+                if prec is not None:
+                    if not isinstance(v, (str, SegStr)):
+                        raise Unsupported('printf conversion %r of something that is not a text' % m_.group(0), n)
+                    piece = self.text_cut(piece, int(prec), n)      # '%.Ns': the first N characters
                 w = int(width) if width else 0
                 if w:
                     padn = max(0, w - len(piece))
@@ -1294,6 +1297,20 @@ class Interp:
         if not named and k != len(vals) and not (k == 0 and False):
             raise _RaisedExc(Raised('TypeError', n))                # not all arguments converted
         return self.plain(out)
+
+    @staticmethod
+    def pyfloat(x):
+        """the constant x as a Python float (rules use it for values the package stores with float(...))"""
+        return as_pyfloat(C(x))
+
+    def text_cut(self, sb, hi, node=None):
+        """the first ``hi`` characters of an abstract text (text[:hi], '%.Ns', '{:.N}'); a cut through a field is
+        recorded and the result is an opaque piece of that field, as for a slice written in the code"""
+        try:
+            return sb.slice(0, hi)
+        except Cut as e:
+            self.cuts.append((node, str(e)))
+            return SegStr.field('piece-of:%r' % (e.seg.value,), 1, e.seg.cls)
 
     def text_key(self, d, key, node=None):
         """normal form of a key for a look-up. A symbolic text is compared with every literal text key the way == compares
@@ -1320,10 +1337,12 @@ class Interp:
         if True:
             out = SegStr()
             if isinstance(v, (str, SegStr)) and spec:
-                m_ = re.fullmatch(r'(?:(.)?([<>^]))?(\d+)?s?', spec)
+                m_ = re.fullmatch(r'(?:(.)?([<>^]))?(\d+)?(?:\.(\d+))?s?', spec)
                 if not m_:
                     raise Unsupported('format spec %r for a string' % spec)
                 piece = self.seg(v)
+                if m_.group(4) is not None:
+                    piece = self.text_cut(piece, int(m_.group(4)))      # '{:.N}': the first N characters
                 width = int(m_.group(3)) if m_.group(3) else 0
                 pad = max(0, width - len(piece))
                 fill = m_.group(1) or ' '
@@ -1510,6 +1529,8 @@ class Interp:
                 else:
                     raise Unsupported('shape mismatch in elementwise operation')
             elif isinstance(a, ListV):
+                if op == '*' and not getattr(a, 'is_array', False) and isinstance(b, PyFloat):
+                    raise _RaisedExc(Raised('TypeError'))       # can't multiply sequence by non-int of type 'float'
                 if op == '*' and not getattr(a, 'is_array', False) and isinstance(b, Rat) and b.is_const() \
                         and b.const_value().denominator == 1:
                     rp_ = ListV(a.items * int(b.const_value()))
@@ -1518,6 +1539,8 @@ class Interp:
                     return rp_
                 r = ListV([self.binop(op, x, b) for x in a.items])
             else:
+                if op == '*' and not getattr(b, 'is_array', False) and isinstance(a, PyFloat):
+                    raise _RaisedExc(Raised('TypeError'))       # can't multiply sequence by non-int of type 'float'
                 if op == '*' and not getattr(b, 'is_array', False) and isinstance(a, Rat) and \
                         (a.iszero() or (a.is_const() and a.const_value().denominator == 1)):
                     rp_ = ListV(b.items * (0 if a.iszero() else int(a.const_value())))       # n * [x]
@@ -2753,6 +2776,8 @@ class Frame:
     def index(self, idx, n, node=None):
         if isinstance(idx, bool):
             idx = C(1 if idx else 0)            # bool is an int: seq[False], seq[True]
+        if isinstance(idx, PyFloat):
+            raise _RaisedExc(Raised('TypeError', node))     # list indices must be integers, not float
         if isinstance(idx, Rat) and idx.is_const() and idx.const_value().denominator == 1:
             i = int(idx.const_value())
             if i < 0:
@@ -2775,7 +2800,8 @@ class Frame:
                 tok = self.module.segment(n)
                 if tok is None:
                     tok = repr(v)
-                return C(token_num(tok).v)
+                r_ = C(token_num(tok).v)
+                return as_pyfloat(r_) if isinstance(v, float) else r_
             raise Unsupported('constant %r' % (v,), n, self.module.relpath)
         if isinstance(n, ast.Name):
             if n.id in self.env and n.id not in self.global_names:
@@ -4029,6 +4055,8 @@ PY_BUILTINS = {'locals', 'iter', 'open', 'round', 'sorted', 'set', 'getattr', 'h
 
 
 def _as_int(v, n=None):
+    if isinstance(v, PyFloat):
+        raise _RaisedExc(Raised('TypeError', n))        # a float where an integer is required (2.0 is not 2 there)
     if isinstance(v, Rat) and v.is_const() and v.const_value().denominator == 1:
         return int(v.const_value())
     raise Unsupported('integer expected', n)
@@ -4072,7 +4100,8 @@ def builtin_call(I, fr, name, args, kwargs, n):
             if name == 'int' and not re.fullmatch(r'[+-]?\d+(?:_\d+)*', txt_):
                 raise _RaisedExc(Raised('ValueError', n))      # int('1.5'), int('1e3'): not an integer literal
             try:
-                return C(_literal_number(sv.literal()))
+                r_ = C(_literal_number(sv.literal()))
+                return as_pyfloat(r_) if name == 'float' else r_
             except Unsupported:
                 raise _RaisedExc(Raised('ValueError', n))
         if f is None and sv.fields():
@@ -4087,7 +4116,8 @@ def builtin_call(I, fr, name, args, kwargs, n):
         if name == 'int' and not re.fullmatch(r'[+-]?\d+(?:_\d+)*', args[0].strip()):
             raise _RaisedExc(Raised('ValueError', n))      # int('1.5'), int('1e3'): not an integer literal
         try:
-            return C(_literal_number(args[0]))
+            r_ = C(_literal_number(args[0]))
+            return as_pyfloat(r_) if name == 'float' else r_
         except Unsupported:
             raise _RaisedExc(Raised('ValueError', n))
     if name == 'locals':
@@ -4199,6 +4229,8 @@ def builtin_call(I, fr, name, args, kwargs, n):
             return Rat.atom(nm)
         if name == 'int' and isinstance(v, (Elem, SumV)):
             raise Unsupported('int() of a vector / sum of symbolic values', n)
+        if isinstance(v, Rat) and name == 'float':
+            return as_pyfloat(v)            # the same number, known to be a Python float now
         if isinstance(v, (Rat, Elem, SumV)):
             return v
         raise Unsupported('%s() of %r' % (name, v), n)
